@@ -37,9 +37,6 @@ VEC_FN = [
 def coverage_for(key):
     f = key.split("::", 1)[0]
     if f.endswith("parser/src/lexer.rs"):
-        if "normalize_line_endings:debug_assert" in key:
-            return known("panic:parser/src/lexer.rs:The_lexer_throws_an_error_when_it_finds_a_lone_carriage_retu", "lone_cr_reaches_literal",
-                         "reachable: the greedy literal regexes swallow a lone carriage return that is not at the start of the literal; debug assertion fails (proposed/C10-lexer-lone-cr.diff)")
         if re.search(r"::(enter_strlike|enter_normal|leave_str|leave_indstr|leave_normal|normal_mode_data_mut|multistring_mode_data|bufferize):panic", key):
             return thm("lexer_no_panic", "mode-switch panic: excluded by the alternation invariant of the mode stack for every raw token sequence")
         if "split_candidate_interp:sub" in key or "handle_normal_token:sub" in key:
@@ -54,6 +51,8 @@ def coverage_for(key):
     if f.endswith("parser/src/error.rs") or f.endswith("parser/src/utils.rs"):
         if ":cast#" in key:
             return thm("mk_span_id", "usize as u32 truncates: identity for offsets of sources shorter than 4 GiB (hypothesis of the theorem; larger sources are not covered)")
+        if "external_error_span" in key:
+            return thm("external_error_span_ok", "the loops walk to a char boundary within [0, len]; modelled with fuel len + 1")
         if "from_serde_json:unwrap" in key:
             return unproved("location.unwrap() under start.map(..): start is Some only if location was Some (line_span is derived from location); data-flow fact, not modelled (only reachable with feature nix-experimental)")
         if "from_serde_json:sub" in key:
@@ -65,17 +64,15 @@ def coverage_for(key):
         return unproved("not modelled")
     if f.endswith("term/string.rs"):
         if "find_all_regex:expect" in key:
-            return known("panic:core/src/term/string.rs:We_already_know_that_first_match.start_occurs_on_a_clust", "find_all_index_panics",
-                         "reachable: an empty match at the end of the string starts at offset len, which grapheme_indices never yields (proposed/C10-find-all-empty-match.diff; no_panic_find_all_fixed for the repair)")
+            return thm("no_panic_find_all_fixed", "the start of a match that passed does_match_start_and_end_on_boundary is one of the cluster offsets or the length of the string, both searched since c9daf53 (find_all_index_panics_iff: before that commit an empty match at the end panicked)")
         if "find_all_regex:unwrap" in key:
             return unproved("capt.get(0).unwrap(): group 0 always participates in a match (guarantee of the regex crate, not modelled)")
         if "substring:sub" in key:
             return thm("no_panic_substring", "end_usize - start_usize is dominated by the test end_usize < start_usize")
         return unproved("not modelled")
     if f.endswith("core/src/pretty.rs"):
-        if "unwrap" in key or "libcall" in key:
-            return known("panic:core/src/pretty.rs:called_Option::unwrap_on_a_None_value", "pretty_print_cap_panics",
-                         "reachable: output.len() counts bytes, nth(max_width) counts characters (proposed/C10-pretty-print-cap.diff)")
+        if "libcall" in key or "unwrap" in key:
+            return thm("no_panic_pretty_print_cap_fixed", "char_indices().nth(max_width) is matched, not unwrapped, since 03ad279 (pretty_print_cap_panics: before that commit it panicked when bytes > max_width >= characters)")
         return unproved("output[..end] with end taken from char_indices(): a char boundary by construction; not modelled")
     if f.endswith("eval/operation.rs"):
         if "::ArrayAt:unwrap" in key:
@@ -134,7 +131,7 @@ HEADER = '''(* C10 — the panic-site ledger.
      ByTheorem    a theorem of coq/Crash (the term is checked here: the name must exist and prove P)
      Delegated    a theorem of another property, by name (checks/c10.py verifies that coq/Props/<id>.v
                   still states it; no Coq-level dependency on the other areas)
-     KnownDefect  the site IS reachable on the unchanged tree: a refuted-lemma with the witness, and
+     KnownDefect  the site IS reachable in the current tree: a refuted-lemma with the witness, and
                   the key of the finding in known_findings.txt
      Hook         verification hook
      Unproved     explicitly open, with the reason
